@@ -101,6 +101,54 @@ func c17Trunc(s string, n int) string {
 	return s
 }
 
+// c17Covered: the body consists of the command forms of Spec/CmdSyntax.v only, its raw texts are
+// not blank, not adjacent, and free of what the scanner does not read as text ({, }, line terminators and
+// tabs -- which only {\\n} {\\r} {\\t} put into a text node --, comment openers)
+func c17Covered(l *ast.ListNode) bool {
+	prevText := false
+	for _, n := range l.Nodes {
+		_, isText := n.(*ast.RawTextNode)
+		if isText && prevText {
+			return false
+		}
+		prevText = isText
+		switch n := n.(type) {
+		case *ast.RawTextNode:
+			t := string(n.Text)
+			if strings.TrimSpace(t) == "" || strings.ContainsAny(t, "{}\n\r\t") || strings.Contains(t, "//") || strings.Contains(t, "/*") {
+				return false
+			}
+		case *ast.PrintNode, *ast.DebuggerNode, *ast.LetValueNode:
+		case *ast.LogNode:
+			if b, ok := n.Body.(*ast.ListNode); !ok || !c17Covered(b) {
+				return false
+			}
+		case *ast.LetContentNode:
+			if b, ok := n.Body.(*ast.ListNode); !ok || !c17Covered(b) {
+				return false
+			}
+		case *ast.IfNode:
+			for _, c := range n.Conds {
+				if b, ok := c.Body.(*ast.ListNode); !ok || !c17Covered(b) {
+					return false
+				}
+			}
+		case *ast.ForNode:
+			if b, ok := n.Body.(*ast.ListNode); !ok || !c17Covered(b) {
+				return false
+			}
+			if n.IfEmpty != nil {
+				if b, ok := n.IfEmpty.(*ast.ListNode); !ok || !c17Covered(b) {
+					return false
+				}
+			}
+		default:
+			return false
+		}
+	}
+	return true
+}
+
 func c17TypeName(n ast.Node) string {
 	return strings.TrimPrefix(fmt.Sprintf("%T", n), "*ast.")
 }
@@ -216,6 +264,13 @@ func c17CheckFiles(e *env, files []c17CmdFile) {
 		real   string
 	}
 	var batch []pend
+	type tpend struct {
+		file    c17CmdFile
+		sexp    string
+		printed string
+		items   []parse.VerifItem
+	}
+	var tbatch []tpend
 	witness := map[string]bool{}
 	census := func(typ, outcome, src, printed, detail string) {
 		key := "reparse:" + typ + ":" + outcome
@@ -251,6 +306,35 @@ func c17CheckFiles(e *env, files []c17CmdFile) {
 			}
 		}
 		batch = batch[:0]
+		// ---- token correspondence for bodies of the covered forms ----
+		treqs := make([]string, len(tbatch))
+		for i, b := range tbatch {
+			treqs[i] = "body_toks " + b.sexp
+		}
+		tresp := e.m.Batch(treqs)
+		for i, b := range tbatch {
+			r := tresp[i]
+			ok := len(r) == 2*len(b.items)
+			for j := 0; ok && j < len(b.items); j++ {
+				if r[2*j] != hx.I(int64(b.items[j].Typ)) {
+					ok = false
+				}
+				if mv := hx.UnH(r[2*j+1]); mv != "" && mv != b.items[j].Val {
+					ok = false
+				}
+			}
+			if ok {
+				e.res.Histogram["body-tokens:agree"]++
+				continue
+			}
+			var real []string
+			for _, it := range b.items {
+				real = append(real, parse.VerifItemName(it.Typ)+":"+it.Val)
+			}
+			e.res.Fail(hx.Violation{Kind: "mismatch", What: "the real scanner does not read the String() of a template body as the items Spec/CmdSyntax.v body_toks gives for its tree",
+				Case: c17Case{Kind: "file", Src: b.file.src}, Expected: map[string]string{"string": b.printed, "items": strings.Join(real, " ")}, Observed: map[string]string{"items": strings.Join(r, " ")}}, "")
+		}
+		tbatch = tbatch[:0]
 	}
 
 	for _, cf := range files {
@@ -294,6 +378,14 @@ func c17CheckFiles(e *env, files []c17CmdFile) {
 				}
 				typ := c17TypeName(n)
 				printed := n.String()
+				if ln, ok := n.(*ast.ListNode); ok && c17Covered(ln) {
+					items := parse.VerifLex("", "{template .x}"+printed+"{/template}", false)
+					if len(items) >= 8 {
+						tbatch = append(tbatch, tpend{cf, nodeSexp(ln, ids), printed, items[4 : len(items)-4]})
+					} else {
+						e.res.Histogram["body-tokens:skipped-lexer-shape"]++
+					}
+				}
 				body, c2 := c17ParseBody(printed)
 				outcome := c2
 				detail := ""
